@@ -8,19 +8,20 @@ blocks = re.split(r"^#### ", log, flags=re.M)[1:]
 for b in blocks:
     head, *rest = b.split("\n")
     retest = None
-    m = re.match(r"(C\d\d)r2 (m\d) -> (.*)", head)
+    rnd = 2
+    m = re.match(r"(C\d\d)r(\d) (m\d) -> (.*)", head)
     if not m:
         m2 = re.match(r"RETEST (C\d\d-m\d+) -> (.*)", head)
         retest = m2.group(1)
         prop, mk, checks = retest[:3], None, m2.group(2).split()
         mid = retest
     else:
-        prop, mk, checks = m.group(1), m.group(2), m.group(3).split()
-        new = f"m{int(mk[1:]) + 3}"
+        prop, rnd, mk, checks = m.group(1), int(m.group(2)), m.group(3), m.group(4).split()
+        new = f"m{int(mk[1:]) + 3 * (rnd - 1)}"
         mid = f"{prop}-{new}"
     if only and mid not in only:
         continue
-    wt = f"/tmp/mut/{prop}r2"
+    wt = f"/tmp/mut/{prop}r{rnd if not retest else 2}"
     # per check outcome
     res = {}
     cur = None
@@ -80,7 +81,7 @@ for b in blocks:
     if os.path.exists(f"{wt}/confirm_{mk}.override.json"):
         confirm = json.load(open(f"{wt}/confirm_{mk}.override.json"))
     meta = {
-        "property": prop, "id": mid, "round": 2, "title": title,
+        "property": prop, "id": mid, "round": rnd, "title": title,
         "needs_to_manifest": needs,
         "confirmed": confirm,
         "confirmed_how": "tools/confirm_mut.sh in a scratch git worktree of /repo: patch applies, cargo test --offline --lib passes with it (393 tests; the authoring agent also ran the full suite incl. doctests), the demonstration fails with it and passes without (demo command in notes.md; Miri / loom / --cfg hipstr_verif / --release where the notes say so)",
